@@ -388,7 +388,7 @@ func runC09(c *vk.Ctx) {
 	c.Assume("sort fields are single-valued (the property does not say which value of a multi-valued field sorts)",
 		"scores used by _score keys are the hit's own score from the all-matches run on the same reader",
 		"index order = enumeration order of the all-matches collector")
-	nCorp := c.Pick(60, 2500)
+	nCorp := c.Pick(240, 4000)
 	workers := runtime.NumCPU()
 	var wg sync.WaitGroup
 	for w := 0; w < workers; w++ {
